@@ -393,6 +393,34 @@ def main():
                     if done:
                         break
 
+    # ---- thorough tier: the replay batteries are also run when no obligation failed.  This is
+    # testing, not proof (reported separately, never counted as discharged): a battery that is
+    # loud although every obligation holds means the contracts do not cover the behaviour it
+    # exercises.  A loud battery is run a second time before it counts (no flake may alarm).
+    battery_info = {"ran": 0, "loud": 0, "note": "replay batteries run unconditionally in the thorough tier: bounded testing of the real code, not part of the proof"}
+    if args.tier == "thorough" and not violations and not errors and mod is not None:
+        try:
+            plans = mod.all_plans() if hasattr(mod, "all_plans") else [mod.build("", {}, {})]
+        except Exception as e:
+            plans = []
+            battery_info["error"] = repr(e)
+        for i, plan in enumerate(plans):
+            if plan is None:
+                continue
+            battery_info["ran"] += 1
+            rp = run_replay(pid, outdir, 1000 + i, plan)
+            if rp["confirmed"]:
+                rp2 = run_replay(pid, outdir, 2000 + i, plan)
+                if rp2["confirmed"]:
+                    battery_info["loud"] += 1
+                    base = "replay-battery:%s" % plan.get("pkg", "")
+                    rec = {"property": pid, "obligation": base, "instances": [], "statuses": ["no obligation failed; the battery reproduces a violation on the real code twice in a row"],
+                           "replay": rp2, "confirmed": True}
+                    path = os.path.join(outdir, "violation_%s.json" % hashlib.sha1(base.encode()).hexdigest()[:10])
+                    with open(path, "w") as f:
+                        json.dump(rec, f, indent=1)
+                    violations.append((base, path, True))
+
     wall = time.time() - t0
     # ---- evidence
     funcs = [u["unit"] for u in units]
@@ -420,6 +448,7 @@ def main():
                         "vacuous_units": vacuous},
             "bounded": cfg.get("bounded", []) + ([bounded_stats] if bounded_stats["obligations"] else []),
             "bounded_fallback": bounded_info,
+            "replay_batteries": battery_info,
             "known_findings": known_lines,
             "errors": errors,
             "explanation": cfg.get("explanation", ""),
